@@ -15,8 +15,8 @@ pub fn def() -> PropDef {
         strum_features: &["derive"],
         profiles: &["dev"],
         rule: "programs: the FULL product {enum flag off/on} x {variant flag absent, bare, =true, =false}^N for N=2..3 over the base identifiers \
-               Kk, Sis, DEf (letters with Unicode look-alikes), x <=k spelling deviations (serialize/to_string from a pool with Kk, ss, i, é, xé, XY, x1, İ), \
-               non-overlapping under R-match. inputs: ALL 2^k ASCII case flips of every spelling, every look-alike substitution (Kelvin sign, long s, \
+               Kk, Sis, KK (letters with Unicode look-alikes; a case-twin pair), x <=k spelling deviations (serialize/to_string from a pool with Kk, ss, i, é, xé, XY, x1, İ), \
+               programs whose spellings overlap are kept but explored on unambiguous inputs only (an input matched by two variants is skipped). inputs: ALL 2^k ASCII case flips of every spelling, every look-alike substitution (Kelvin sign, long s, \
                dotless/dotted i, sharp s, É/é, Å/Angstrom), one-edit neighbours, Trie(L). oracle: R-parse with A-Z-only folding. non-trivial = accepted \
                input or rejected input that equals a spelling after Unicode lower-casing; distinct per (program, input)",
         trusted_base: &["rustc", "derived Debug", "generated vidx() match", "vf-core R-parse / R-match (folds only A-Z)"],
@@ -25,7 +25,8 @@ pub fn def() -> PropDef {
     }
 }
 
-const IDENTS: [&str; 3] = ["Kk", "Sis", "DEf"];
+// the third identifier is a case twin of the first: under a lower/upper-casing style two variants get the same spelling
+const IDENTS: [&str; 3] = ["Kk", "Sis", "KK"];
 
 pub fn programs(tier: Tier) -> ProgramSet {
     let pool: Vec<&str> = match tier {
@@ -83,17 +84,18 @@ pub fn programs(tier: Tier) -> ProgramSet {
                     true
                 }));
                 let label = format!("N={} enum_ci={} flags=[{}]", n, eflag, fl.join(","));
-                let (specs, ex) = enumerate(&base, &label, &devs, k, &parse_domain);
+                let (specs, ex) = enumerate(&base, &label, &devs, k, &parse_domain_overlap_ok);
                 excluded += ex as u64;
                 for e in specs {
                     let source = render_parse_module(&e.spec, &derives, call);
-                    out.push(Program { idx: 0, label: e.label, k: e.k, spec: e.spec, aux: json!(null), source });
+                    let aux = overlap_aux(&e.spec);
+                    out.push(Program { idx: 0, label: e.label, k: e.k, spec: e.spec, aux, source });
                 }
             }
         }
     }
     let mut ex = std::collections::BTreeMap::new();
-    ex.insert("overlapping spellings".to_string(), excluded);
+    ex.insert("malformed (two defaults ..)".to_string(), excluded);
     ProgramSet {
         programs: finish(out),
         excluded: ex,
